@@ -326,6 +326,12 @@ class Ctx:
                     violation = (p, True)
         if violation is None:
             for t in self.ties:
+                # a disagreement on a case whose implementation history already exhibits a listed known
+                # finding is that finding (the spec-level model says what the property says), not a new alarm
+                known_cases = {cid for cid, sig, _ in t.monitor_fails if sig in known_sigs}
+                attributed = [m for m in t.mismatches if m[0] in known_cases]
+                t.mismatches = [m for m in t.mismatches if m[0] not in known_cases]
+                t.attributed_to_known = len(attributed)
                 if t.mismatches:
                     cid, text = t.mismatches[0]
                     p = self.write_replay("correspondence", t, cid,
@@ -355,7 +361,7 @@ class Ctx:
                 "traces_validated_against_impl": sum(t.cases for t in self.ties if not t.errors),
                 "samples": [s for t in self.ties for s in t.samples][:6],
                 "ties": [{"name": t.name, "cases": t.cases, "op_lines": t.lines, "distinct_nontrivial": t.distinct,
-                          "mismatches": len(t.mismatches), "monitor_failures": len(t.monitor_fails),
+                          "mismatches": len(t.mismatches), "mismatches_attributed_to_known_findings": getattr(t, "attributed_to_known", 0), "monitor_failures": len(t.monitor_fails),
                           "branch_tags": t.tags, "errors": t.errors, "wall_s": round(t.wall, 2)} for t in self.ties],
                 "known_findings_reproduced": sorted(printed_known),
                 "proof_failures": self.proof_failures,
